@@ -78,6 +78,14 @@ class ClassVal:
     method_home: Optional[Dict[str, str]] = None
 
 
+class _Break(Exception):
+    pass
+
+
+class _Continue(Exception):
+    pass
+
+
 class _Return(Exception):
     def __init__(self, value):
         self.value = value
@@ -155,10 +163,39 @@ class Folder:
                 it = list(it.keys())
             if not isinstance(it, (list, tuple, str, range)):
                 raise Undecidable(f"loop over {norm(s.iter)}")
-            for x in it:
+            broke = False
+            for x in list(it):
                 self.assign(s.target, x)
-                self.block(s.body)
-            self.block(s.orelse)
+                try:
+                    self.block(s.body)
+                except _Break:
+                    broke = True
+                    break
+                except _Continue:
+                    continue
+            if not broke:
+                self.block(s.orelse)
+            return
+        if isinstance(s, ast.Break):
+            raise _Break()
+        if isinstance(s, ast.Continue):
+            raise _Continue()
+        if isinstance(s, ast.While):
+            n_iter = 0
+            broke = False
+            while self.truth(self.expr(s.test), s.test):
+                n_iter += 1
+                if n_iter > 10000:
+                    raise Undecidable(f"while loop at line {s.lineno} does not terminate within 10000 iterations")
+                try:
+                    self.block(s.body)
+                except _Break:
+                    broke = True
+                    break
+                except _Continue:
+                    continue
+            if not broke:
+                self.block(s.orelse)
             return
         if isinstance(s, ast.Return):
             raise _Return(self.expr(s.value) if s.value is not None else None)
@@ -281,6 +318,8 @@ class Folder:
                 raise Undecidable(f"field {e.attr} of {base.cls}")
             if isinstance(base, Opaque):
                 return Opaque(f"{base.text}.{e.attr}")
+            if getattr(base, "_sa_model", False) and hasattr(base, e.attr) and not callable(getattr(base, e.attr)):
+                return getattr(base, e.attr)          # data attribute of a checker-side model object
             raise Undecidable(f"attribute {txt}")
         if isinstance(e, (ast.Set,)):
             return frozenset(self.expr(x) for x in e.elts)
@@ -564,6 +603,14 @@ class Folder:
         if fn in ("math.log2", "np.log2", "math.log", "math.log10") and len(args) == 1 and isinstance(args[0], (int, float)) and not isinstance(args[0], bool) and args[0] > 0:
             import math as _m
             return getattr(_m, fn.split(".")[1])(args[0])
+        if fn in ("np.ones", "np.zeros", "numpy.ones", "numpy.zeros") and len(args) == 1 and isinstance(args[0], int) and not isinstance(args[0], bool) and \
+                set(kwargs) <= {"dtype"}:
+            return [1 if fn.endswith("ones") else 0] * args[0]         # a one-dimensional array of a literal length, as a list
+        if fn in ("np.prod", "numpy.prod", "math.prod") and len(args) == 1 and isinstance(args[0], (list, tuple)) and not kwargs:
+            out = 1
+            for x in args[0]:
+                out = out * x
+            return out
         if fn == "round" and len(args) in (1, 2) and all(isinstance(a, (int, float)) and not isinstance(a, bool) for a in args):
             return round(*args)
         if fn in ("math.remainder", "math.fmod") and len(args) == 2 and all(isinstance(a, (int, float)) for a in args):
@@ -659,6 +706,16 @@ class Folder:
                 return getattr(obj, m)(*args, **kwargs)
             if isinstance(obj, (set, frozenset)) and m in ("union", "intersection", "difference", "issubset") and not kwargs:
                 return frozenset(getattr(frozenset(obj), m)(*args))
+            if isinstance(obj, set) and m in ("add", "update", "discard", "remove", "pop") and not kwargs:
+                try:
+                    return getattr(obj, m)(*args)          # a mutable set handed in by the checker
+                except KeyError:
+                    raise Raised("KeyError", e)
+            if isinstance(obj, frozenset) and m in ("add", "update", "discard") and not kwargs and isinstance(e.func.value, ast.Name):
+                # sets are folded as immutable values: an in-place update rebinds the variable
+                new = obj | frozenset(args[0]) if m == "update" else (obj | {args[0]} if m == "add" else obj - {args[0]})
+                self.env[e.func.value.id] = new
+                return None
         fv = None
         try:
             fv = self.expr(e.func)
